@@ -1,6 +1,7 @@
 import MsiProofs.Props.C05
 import MsiProofs.Lemmas.SortedInv
 import MsiProofs.Lemmas.SortUpd
+import MsiProofs.Lemmas.Lifecycle
 /-
 C05 over histories — in every table the rows the state reads are in strictly ascending key order
 (hence have pairwise distinct keys), and every insert or delete on any table, accepted or refused,
@@ -29,5 +30,9 @@ keeps every table in ascending key order -/
 def update_sorted := @MsiProofs.SortUpd.update_sorted
 /-- **every history of inserts, updates and deletes keeps every table's keys unique and ascending** -/
 def dml_history_sorted := @MsiProofs.SortUpd.history_sorted
+
+/-- **in every state reachable from `Package::create`** by statements on user tables, `create_table`,
+`drop_table` and saves, every table — catalog tables included — is in strictly ascending key order -/
+def created_history_sorted := @MsiProofs.Lifecycle.created_history_sorted
 
 end MsiProofs.C05
